@@ -84,7 +84,7 @@ def run_case(case):
     poly = gfpx.GFpX(p)
     maxlen = 4 if p == 11 else 8
     if group == 'irreducible':
-        maxlen = 3 if p > 101 else 4   # D//2 modular powers X^(p^i) mod a: 31 squarings + secure divisions each for p = 2^31-1
+        maxlen = 3 if p > 11 else 4   # D//2 modular powers X^(p^i) mod a: 31 squarings + secure divisions each for p = 2^31-1
     res = {'case': case, 'status': 'ok', 'lean': [], 'ops': [], 'tags': []}
 
     # ---- inputs ---------------------------------------------------------------------------------
@@ -99,8 +99,6 @@ def run_case(case):
         A = plist(poly, (poly(A) * poly(C)))[:maxlen]
         B = plist(poly, (poly(B) * poly(C)))[:maxlen]
         A, B = plist(poly, poly(A)), plist(poly, poly(B))
-    if group == 'gcd' and not A and not B:    # gcd(0, 0) / gcdext(0, 0) with positive length never terminate (monic of 0), see report
-        A = rpoly(rng, p, maxlen, 'rand')
     if group == 'cmp' and rng.random() < 0.3:
         B = list(A)
         if B and rng.random() < 0.5:
@@ -127,6 +125,7 @@ def run_case(case):
     n1, n2 = rng.randint(0, 4), rng.randint(0, 4)
     x0 = rng.randrange(p)
     xs = rng.randrange(p)
+    e0 = rng.choice([0, 1, 2, 3, 5, -1, -2])
     # every random choice is drawn HERE (plan() runs once per party and must not consume randomness)
     d_rev = rng.randint(-1, len(PA) + 2)
     ds_rev = rng.randint(-1, len(PA) - 1) if len(PA) >= 1 else None
@@ -169,8 +168,7 @@ def run_case(case):
             add('(a<<n)>>n', (f << n1) >> n1, a)
         elif group == 'degree':
             add('degree', f.degree(), a.degree(), ('pdeg', PA))
-            if A:    # monic() of a zero polynomial of positive length never terminates (1/0 in np_reciprocal), see report
-                add('monic', f.monic(), a.monic())
+            add('monic', f.monic(), a.monic())
             if len(PA) + len(PB) <= p:
                 add('degree(a*b)', (f * g).degree(), (a * b).degree())
             add('reverse()', f.reverse(), a.reverse())
@@ -196,6 +194,8 @@ def run_case(case):
             add('lens', None, None, ('plens', len(PA), len(PB), len((f // g).share), len((f % g).share), len((f + g).share), len((f * g).share)))
         elif group == 'gcd':
             add('gcd', secpoly.gcd(f, g), poly.gcd(a, b))
+            if not A and not B and (PA or PB):
+                return S, out      # gcdext(0, 0) with positive length never terminates: open finding secpoly_gcdext_zero_hang
             ge = secpoly.gcdext(f, g)
             ee = poly.gcdext(a, b)
             add('gcdext.d', ge[0], ee[0])
@@ -328,7 +328,8 @@ DIRECTED = {
     'gcdext_noncoprime': ('secpoly_gcdext_cofactors_differ', 11),
     'eval_public_overflow': (None, 2**31 - 1),       # fixed in 8389ac8, kept as regression input
     'irreducible_slack': ('secpoly_is_irreducible_slack', 11),
-    'zero_monic': ('secpoly_zero_monic_gcd_hang', 11),
+    'zero_monic': (None, 11),                        # fixed, kept as regression input
+    'zero_gcdext': ('secpoly_gcdext_zero_hang', 11),
     'zero_irreducible': ('secpoly_is_irreducible_zero_crash', 11),
 }
 
@@ -356,7 +357,11 @@ def run_directed(case):
             c = poly([1, 2, 3, 4, 5])
             return secpoly(c, sectype=S)(2000000000), c(2000000000), 'secpoly(1+2x+3x^2+4x^3+5x^4)(2000000000) over GF(2^31-1)'
         if name == 'zero_monic':
-            return secpoly(np.array([0, 0]), sectype=S).monic(), poly(0), 'secpoly([0,0]).monic() over GF(11)'
+            z = secpoly(np.array([0, 0]), sectype=S)
+            return [z.monic(), secpoly.gcd(z, z)], [poly(0), poly(0)], 'secpoly([0,0]).monic(), gcd(z,z) over GF(11)'
+        if name == 'zero_gcdext':
+            z = secpoly(np.array([0, 0]), sectype=S)
+            return list(secpoly.gcdext(z, z)), list(poly.gcdext(poly(0), poly(0))), 'secpoly.gcdext(z, z), z = secpoly([0,0]) over GF(11)'
         if name == 'zero_irreducible':
             return secpoly.is_irreducible(secpoly(np.array([0, 0, 0]), sectype=S)), 0, 'secpoly.is_irreducible(secpoly([0,0,0])) over GF(11)'
         return secpoly.is_irreducible(secpoly(np.array([1, 0, 1, 0, 0]), sectype=S)), 1, \
@@ -391,20 +396,25 @@ def make_cases(ctx, extra):
     for group in GROUPS:
         for p in PRIMES:
             for (m, np_) in CONFIGS:
+                if group == 'irreducible' and p > 101 and m > 1 and not ctx.thorough:
+                    continue   # 31 secure modular squarings per test: thorough tier only
                 for _ in range(ctx.scale(1, 3)):
                     cases.append({'group': group, 'p': p, 'm': m, 'no_prss': np_, 'seed': rng.randrange(1 << 30)})
     for name in sorted(DIRECTED):
         cases.append({'directed': name, 'group': 'directed', 'p': DIRECTED[name][1], 'm': 3, 'no_prss': False, 'seed': 1})
     for _ in range(extra):
         m, np_ = rng.choice(CONFIGS + [(3, False), (3, True)])
-        cases.append({'group': rng.choice(GROUPS), 'p': rng.choice(PRIMES), 'm': m, 'no_prss': np_, 'seed': rng.randrange(1 << 30)})
+        g, p = rng.choice(GROUPS), rng.choice(PRIMES)
+        if g == 'irreducible' and p > 101:
+            p = rng.choice([11, 101])
+        cases.append({'group': g, 'p': p, 'm': m, 'no_prss': np_, 'seed': rng.randrange(1 << 30)})
     return cases
 
 
 def run_cases(ctx, cases):
     nproc = min(16, os.cpu_count() or 4)
     with mp.get_context('fork').Pool(nproc, maxtasksperchild=100) as pool:
-        results = pool.map(_worker, cases, chunksize=2)
+        results = pool.map(_worker, sorted(cases, key=lambda c: (c['group'] not in ('irreducible', 'invpow', 'gcd'), -c['p'])), chunksize=1)
     lean_req, lean_impl, meta = [], [], []
     for res in results:
         case = res['case']
@@ -440,7 +450,7 @@ def run_cases(ctx, cases):
 
 
 def run(ctx):
-    run_cases(ctx, make_cases(ctx, ctx.scale(120, 1500)))
+    run_cases(ctx, make_cases(ctx, ctx.scale(60, 1500)))
 
 
 def search(ctx):
